@@ -29,6 +29,7 @@ pub struct Args {
    pub threads: usize,
    pub replay: Option<String>,
    pub only: Option<String>,
+   pub members_of: Option<String>,
 }
 
 pub fn parse_args() -> Args {
@@ -41,6 +42,7 @@ pub fn parse_args() -> Args {
       threads: 16,
       replay: None,
       only: None,
+      members_of: None,
    };
    let argv: Vec<String> = std::env::args().collect();
    let mut i = 1;
@@ -55,6 +57,7 @@ pub fn parse_args() -> Args {
          "--threads" => a.threads = v.parse().expect("threads"),
          "--replay" => a.replay = Some(v),
          "--only" => a.only = Some(v),
+         "--members-of" => a.members_of = Some(v),
          other => panic!("unknown argument {other}"),
       }
       i += 2;
@@ -165,18 +168,71 @@ static PROGRESS: AtomicU64 = AtomicU64::new(0);
 fn tick() { PROGRESS.fetch_add(1, Ordering::Relaxed); }
 pub fn tick_progress() { tick() }
 
+/// What is running right now (bases of the programs, input, history / scenario), for the deadlock report.
+pub static CURRENT: Mutex<Option<(Vec<String>, String, Option<String>)>> = Mutex::new(None);
+static OUT_PATH: Mutex<Option<String>> = Mutex::new(None);
+
+pub fn set_current(bases: Vec<String>, input: &Db, ops: Option<String>) {
+   *CURRENT.lock().unwrap() = Some((bases, serde_json::to_string(input).unwrap_or_default(), ops));
+}
+
+/// user + system CPU time of this process in clock ticks
+fn cpu_ticks() -> Option<u64> {
+   let s = std::fs::read_to_string("/proc/self/stat").ok()?;
+   // the command name (field 2) may contain spaces: fields are counted after the closing parenthesis
+   let rest = &s[s.rfind(')')? + 2..];
+   let f: Vec<&str> = rest.split_whitespace().collect();
+   Some(f.get(11)?.parse::<u64>().ok()? + f.get(12)?.parse::<u64>().ok()?)
+}
+
+/// No progress for `limit`: inconclusive (exit 2). No progress for 25 s while the whole process consumes no CPU time
+/// over two consecutive 5 s windows: every thread is blocked, which in a process without I/O is a deadlock of the
+/// code under test (exit 3; the current case is written next to the result file).
 fn start_watchdog(limit: Duration) {
    std::thread::spawn(move || {
       let mut last = PROGRESS.load(Ordering::Relaxed);
       let mut since = Instant::now();
+      let mut idle_windows = 0;
+      let mut window_start = Instant::now();
+      let mut window_ticks = cpu_ticks();
       loop {
          std::thread::sleep(Duration::from_millis(500));
          let now = PROGRESS.load(Ordering::Relaxed);
          if now != last {
             last = now;
             since = Instant::now();
-         } else if since.elapsed() > limit {
-            eprintln!("WATCHDOG: no progress for {:?}: possible deadlock or runaway case (inconclusive)", limit);
+            idle_windows = 0;
+            window_start = Instant::now();
+            window_ticks = cpu_ticks();
+            continue;
+         }
+         if window_start.elapsed() >= Duration::from_secs(5) {
+            let t = cpu_ticks();
+            match (window_ticks, t) {
+               (Some(a), Some(b)) if b.saturating_sub(a) <= 1 => idle_windows += 1,
+               _ => idle_windows = 0,
+            }
+            window_start = Instant::now();
+            window_ticks = t;
+         }
+         if since.elapsed() > Duration::from_secs(25) && idle_windows >= 2 {
+            let cur = CURRENT.lock().map(|c| c.clone()).unwrap_or(None);
+            let j = serde_json::json!({
+               "no_progress_s": since.elapsed().as_secs(),
+               "idle_cpu_windows_of_5s": idle_windows,
+               "bases": cur.as_ref().map(|c| c.0.clone()),
+               "input": cur.as_ref().map(|c| c.1.clone()),
+               "ops": cur.as_ref().and_then(|c| c.2.clone()),
+            });
+            if let Some(out) = OUT_PATH.lock().unwrap().clone() {
+               std::fs::write(format!("{out}.deadlock.json"), serde_json::to_string_pretty(&j).unwrap()).ok();
+            }
+            eprintln!("WATCHDOG: no progress for {:?} and no CPU time consumed by any thread: deadlock", since.elapsed());
+            println!("DEADLOCK");
+            std::process::exit(3);
+         }
+         if since.elapsed() > limit {
+            eprintln!("WATCHDOG: no progress for {:?}: possible runaway case (inconclusive)", limit);
             println!("INCONCLUSIVE watchdog");
             std::process::exit(2);
          }
@@ -266,6 +322,7 @@ pub fn run_case(group: &Group, input: &Db, plan: &ParPlan, case_seed: u64) -> Ca
       Err(e) => return CaseOutcome::RefError(format!("{e:?}")),
    };
    tick();
+   set_current(vec![group.base.clone()], input, None);
    let mut failures = vec![];
    let mut runs = 0u64;
    let mut summaries = vec![];
@@ -528,7 +585,23 @@ pub fn run_main(entries: Vec<Entry>) -> ! {
    let args = parse_args();
    let t0 = Instant::now();
    std::panic::set_hook(Box::new(|_| {}));
+   *OUT_PATH.lock().unwrap() = Some(args.out.clone());
+   let _ = std::fs::remove_file(format!("{}.deadlock.json", args.out));
    start_watchdog(Duration::from_secs(180));
+   if let Some(bases) = &args.members_of {
+      // prints what a replay file needs to rebuild the programs of the named bases
+      let groups = build_groups(&entries, None).expect("groups");
+      let want: Vec<&str> = bases.split(',').collect();
+      let mut members = vec![];
+      let mut text = vec![];
+      for g in groups.iter().filter(|g| want.contains(&g.base.as_str())) {
+         members.extend(members_json(g));
+         text.extend(g.members.iter().map(|m| m.entry.text.to_string()));
+      }
+      text.dedup();
+      println!("{}", serde_json::json!({"members": members, "program_text": text.join("\n")}));
+      std::process::exit(0);
+   }
    let only = if args.prop == "C20" { None } else { args.only.as_deref() };
    let groups = match build_groups(&entries, only) {
       Ok(g) => g,
